@@ -43,6 +43,10 @@ LEVEL.update({
  "C10":("the real ingester is executed over K symbolic records; each result is compared with an independent evaluation of a copy of that record alone with a fresh context (so no result depends on another record), a failing record is exactly one continuable ErrTransformFailed, every record node is released exactly once before the next read, and the tree under the reader's root does not grow",
         "FormatReader mock; reader-side cross-record state is covered where it lives (C06 line/record buffers, C12 pool, C13 caches)"),
 })
+LEVEL.update({
+ "C19":("only the epoch arithmetic: DateTimeToEpoch (both units) and EpochToDateTimeRFC3339 (SECOND) on the real code and the real time package's integer code, for every instant of years 1..9999 under 64-bit wrap-around semantics; counterexamples are replayed natively through the real parser and formatter",
+        "parsing, layouts, formatting and IANA zones are cut away (outside); the MILLISECOND inverse direction is not registered because the solver does not finish its unsat direction"),
+})
 REASON_NOT_YET="check under construction in this session (see DESIGN.md §6); not claimed yet"
 m={
  "version":1,
